@@ -598,6 +598,15 @@ class Sampler:
         self.rules = rules              # name -> item (most-derived)
         self.super_rules = super_rules or {}
         self.maxdepth = maxdepth
+        self.budget = 4000           # expression visits per sampler: amplified grammars explode otherwise
+        self._size = {}
+
+    def _sz(self, e):
+        k = id(e)
+        v = self._size.get(k)
+        if v is None:
+            v = self._size[k] = len(json.dumps(e))
+        return v
 
     def item(self, it, depth, bind=None):
         if it['k'] == 'rule':
@@ -610,7 +619,10 @@ class Sampler:
     def expr(self, e, depth, bind=None):
         r = self.rng
         k = e[0]
-        deep = depth >= self.maxdepth
+        self.budget -= 1
+        deep = depth >= self.maxdepth or self.budget < 0
+        if self.budget < -2000:
+            return []
         if k == 'lit':
             return [e[1]]
         if k == 're':
@@ -636,7 +648,7 @@ class Sampler:
         if k in ('alt', 'longest'):
             opts = e[1:]
             if deep:
-                return self.expr(min(opts, key=lambda o: len(json.dumps(o))), depth + 1, bind)
+                return self.expr(min(opts, key=self._sz), depth + 1, bind)
             return self.expr(r.choice(opts), depth + 1, bind)
         if k == 'opt':
             return self.expr(e[1], depth + 1, bind) if (not deep and r.random() < 0.6) else []
